@@ -346,7 +346,7 @@ def main_check(prop, tier, seed):
     real_viol = [s for s in viol if not s.inst.name.startswith("reach:")]
     if real_viol and exit_code == 0:
         s = real_viol[0]
-        d = os.path.join(VERIF, "replays", prop)
+        d = os.path.join(os.environ.get("VERIF_REPLAY_DIR") or os.path.join(VERIF, "replays"), prop)
         os.makedirs(d, exist_ok=True)
         payload = {"property": prop, "module": modname, "instance": {"make": s.inst.make, "args": list(s.inst.args), "name": s.inst.name},
                    "label": s.violation["label"], "values": s.violation["values"], "detail": s.violation.get("detail")}
@@ -427,12 +427,14 @@ def main_check(prop, tier, seed):
         "violations": len(real_viol),
         "exit_code": exit_code,
     }
-    os.makedirs(os.path.join(VERIF, "evidence"), exist_ok=True)
-    with open(os.path.join(VERIF, "evidence", f"{prop}.json"), "w") as f:
+    evdir = os.environ.get("VERIF_EVIDENCE_DIR") or os.path.join(VERIF, "evidence")  # override only for runs on scratch checkouts
+    os.makedirs(evdir, exist_ok=True)
+    ev["repo_src"] = _repo_src()
+    with open(os.path.join(evdir, f"{prop}.json"), "w") as f:
         json.dump(ev, f, indent=1, default=str)
     # per-tier copy, so that the last quick and the last thorough run can both be inspected
-    os.makedirs(os.path.join(VERIF, "evidence", tier), exist_ok=True)
-    with open(os.path.join(VERIF, "evidence", tier, f"{prop}.json"), "w") as f:
+    os.makedirs(os.path.join(evdir, tier), exist_ok=True)
+    with open(os.path.join(evdir, tier, f"{prop}.json"), "w") as f:
         json.dump(ev, f, indent=1, default=str)
     # summary to stdout
     for pi in per_inst:
@@ -441,6 +443,12 @@ def main_check(prop, tier, seed):
     print(f"{prop} {tier}: exit={exit_code} exhaustive={all_exh} paths={tot['paths']} queries={tot['solver_calls']} "
           f"solver_s={tot['solver_s']:.1f} validated={tot['validated']} wall={time.time() - t0:.1f}s", flush=True)
     return exit_code
+
+
+def _repo_src():
+    import frequenz.sdk
+
+    return os.path.dirname(os.path.dirname(os.path.dirname(os.path.abspath(frequenz.sdk.__file__))))
 
 
 def _z3v():
